@@ -35,9 +35,9 @@ def replay(model, fnd, prop):
     rc, out = sh(["cargo", "test", "--offline", "--test", "c02_empty_file_sha256"], cwd=os.path.join(VERIF, "replay"), env=env, timeout=2400,
                  log=os.path.join(LOGS, "replay_c02.log"))
     path = os.path.join(VERIF, "replay", "tests", "c02_empty_file_sha256.rs")
-    if "test result: FAILED" in out and "C02 violated" in out:
+    if "test result: FAILED" in out:
         m = re.search(r"C02 violated: [^\n]*", out)
-        return True, path, m.group(0)[:200] if m else "native replay fails"
+        return True, path, m.group(0)[:200] if m else ("native replay fails: " + (re.search(r"panicked at [^\n]*\n[^\n]*", out).group(0).replace("\n", " ")[:200] if re.search(r"panicked at [^\n]*\n[^\n]*", out) else "test failed"))
     if "test result: ok. 1 passed" in out:
         return False, path, "native replay passes: empty file records SHA-256 of the empty string"
     return None, path, "native replay inconclusive (rc=%s)" % rc
